@@ -17,9 +17,16 @@ compare with the real code:
 * `CheckTs.checkSchema`     (`check_type_system_document`, Model/CheckTs.lean + CheckTsCommon.lean)
 * `CheckOp.checkOp`         (`check_operation_document`, Model/CheckOp.lean + CheckCommon.lean)
 * `SchemaDecls.schemaFile`  (schema declaration file, Model/SchemaDecls.lean)
-* `OpTypes.implTree`/`toTs` (operation result types, Model/OpTypes.lean)
+* `ResolverDecls.resolversFile` (resolvers declaration file; K stream of C10)
+* `OpTypes.implTree`/`toTs`/`opDecls` (operation result types, Model/OpTypes.lean; K streams of C01/C02)
 
 Property theorems only; helper lemmas are in `Lemmas/DeterminismConcrete*.lean`.
+
+Hypotheses (`NoDupTypeNames`, `NoDupDirectiveNames`, at most one schema definition, `BuiltinsApart`,
+`KeepsDirectiveOrder`, `KeepsImplOrder`, `NoDupOpNames`, `NoDupFragNames`, `KeepsExtOrder`) are stated per theorem and are
+not discharged here. A permutation is a permutation of the LIST of definitions, each carrying its recorded positions.
+OPEN — carried by K/O only: see the block at the end of `Props/C17.lean` (model = code, the real CLI under permuted
+source files, re-positioning of moved definitions, `additional_info` / message text of diagnostics).
 -/
 namespace NitroVerif.Determinism
 open NitroVerif.Gql
